@@ -253,3 +253,50 @@ Definition valid (v : version) : bool :=
   N.ltb (major v) two64 && N.ltb (minor v) two64 && N.ltb (patch v) two64
   && match pre v with [] => true | p => idents_ok p && pre_ok p end
   && match meta v with [] => true | m => idents_ok m end.
+
+(* ---------- semver.org 2.0.0 precedence (specification side) ----------
+   Identifiers consisting of only digits are compared numerically - without any bound -,
+   others bytewise; numeric ones are lower; a longer list of identifiers is higher when all
+   preceding ones are equal.  The library agrees with it as long as numeric identifiers fit
+   in uint64 ([small]); above that it falls back to bytewise comparison. *)
+Definition num_unb (x : str) : option N :=
+  match x with
+  | [] => None
+  | _ => match uint_of_bytes x with Some u => Some (N.of_uint u) | None => None end
+  end.
+Definition spec_cmp_ident (x y : str) : comparison :=
+  match num_unb x, num_unb y with
+  | Some a, Some b => N.compare a b
+  | Some _, None => Lt
+  | None, Some _ => Gt
+  | None, None => if seqb x y then Eq else if sltb x y then Lt else Gt
+  end.
+Fixpoint spec_cmp_idents (a b : list str) : comparison :=
+  match a, b with
+  | [], [] => Eq
+  | [], _ :: _ => Lt
+  | _ :: _, [] => Gt
+  | x :: a', y :: b' => match spec_cmp_ident x y with Eq => spec_cmp_idents a' b' | c => c end
+  end.
+Definition spec_cmp_pre (ps po : str) : comparison :=
+  match ps, po with
+  | [], [] => Eq
+  | [], _ => Gt
+  | _, [] => Lt
+  | _, _ => spec_cmp_idents (split_on c_dot ps) (split_on c_dot po)
+  end.
+Definition spec_compare (v o : version) : comparison :=
+  match N.compare (major v) (major o) with
+  | Eq => match N.compare (minor v) (minor o) with
+          | Eq => match N.compare (patch v) (patch o) with
+                  | Eq => spec_cmp_pre (pre v) (pre o)
+                  | c => c
+                  end
+          | c => c
+          end
+  | c => c
+  end.
+Definition small_ident (x : str) : bool :=
+  match num_unb x with Some n => N.ltb n two64 | None => true end.
+Definition small (v : version) : bool :=
+  match pre v with [] => true | p => forallb small_ident (split_on c_dot p) end.
